@@ -7,7 +7,7 @@
 use crate::chooser::Chooser;
 use crate::runner::{Family, PropSpec, RunCtx, RunOut};
 use crate::scen::{Basic, BasicOpts};
-use crate::tap::{new_tap, NO_INC};
+use crate::tap::NO_INC;
 use crate::world::World;
 
 /// Describe why the stuck connection cannot move, from observable accounting.
@@ -77,9 +77,7 @@ pub fn liveness_end_checks(w: &mut World, sc: &Basic) {
 }
 
 fn run(ch: Chooser, ctx: &RunCtx, mut opts: BasicOpts) -> RunOut {
-    let tap = new_tap();
-    let mut w = World::new(ch, tap);
-    w.log_on = ctx.log;
+    let mut w = World::from_ctx(ch, ctx);
     // C02 quantifies over loss / duplication / delay and driver schedules: no corruption, no
     // address changes, no application close
     opts.allow_corrupt = false;
